@@ -175,6 +175,19 @@ theorem control_py_is_model (s : State) (code : Nat) :
     Generated.PyPeer.Control.stop (ctl s false) = .ret () (ctl (stopP s).1 true) :=
   ⟨py_teardown_eq_model s code, py_reestablish_eq_model s, (py_stop_eq_model s).1⟩
 
+/-- **The model is the code** (leaving a session): `Peer._close`, translated from /repo on this run and run on the
+    state of M-Session, calls `processes.down` exactly when the FSM is beyond ACTIVE and the neighbor reports its
+    changes, sends the FSM to IDLE, closes the connection in hand exactly when there is one and leaves none — and
+    `closeP` of the model writes `down` exactly then (API process alive), ends in IDLE without a connection and
+    emits `close` exactly then.  `leave_closes` and `up_down_alternate` above go through `closeP`. -/
+theorem close_py_is_model (s : State) :
+    pyClose s = .ret () ⟨false, (!(s.fsm == .idle || s.fsm == .active)) && s.cfg.changes, true, s.conn.isSome⟩ ∧
+    (Out.down ∈ (closeP s).2 ↔ ((!(s.fsm == .idle || s.fsm == .active)) && s.cfg.changes) = true ∧ s.dead = false) ∧
+    (closeP s).1.fsm = .idle ∧ (closeP s).1.conn = none ∧
+    ((∃ i, Out.close i ∈ (closeP s).2) ↔ s.conn.isSome = true) :=
+  ⟨py_close_result s, (py_close_is_closeP s).1, (py_close_is_closeP s).2.1, (py_close_is_closeP s).2.2.1,
+    (py_close_is_closeP s).2.2.2.1⟩
+
 /-! ## the hypotheses are satisfiable, the conclusions are not vacuous -/
 
 /-- a whole session: establishment, routes and End-of-RIB in ESTABLISHED, teardown with cease, restart. -/
